@@ -121,3 +121,40 @@ package cisco
 //vc:  assign at "action0 == getIOSAction(b)" runUniform = runUniform && strings.Cut(b.parsed, " ") == action0
 //vc:  invariant[C02,C14] 6 "for i, b := range bl[r.LowB:r.HighB]" @moveOKMeansUniformRun -1 <= rangeindex && moveOK == runUniform
 //vc:  assert[C02,C14] at "moveACL(cmdPos, b, r.LowA, i, moveOK)" @moveSuppressibleOnlyInUniformRun moveOK ==> runUniform
+
+// ---- C01: line position kernel of the ASA ACL diff ----
+// pos[c] is the 0-based position a line has on the device at this moment of
+// the script. ASA numbers lines from 1: a command for position p carries
+// "line p+1". Inserting at position i moves every line at a position >= i one
+// down; deleting the line at position i moves every line behind it one up.
+// posSnap is the position map right after the command was emitted.
+//vc:ghost var posSnap map[*cmd]int
+//vc:func (*State).diffASAACLs$1
+//vc:  assert[C01] at "strconv.Itoa(pos + 1)" @lineNumberIsPositionPlusOne arg0 == pos + 1
+// addACL
+//vc:func (*State).diffASAACLs$2
+// the position of every line to be added or deleted was recorded before (loops over diff in diffASAACLs)
+//vc:  hypothesis[C01] b in pos
+// (pos is a local of this diffASAACLs activation: nested activations reached through addCmds use their own map)
+//vc:  assume after "s.addCmds([]*cmd{b})" b in pos
+//vc:  assign after "s.addCmds([]*cmd{b})" posSnap = mapvals(pos)
+//vc:  invariant[C01] 1 "for cmd, p := range pos" @shiftedOnceIfVisited i == posSnap[b] && (forall c *cmd :: { pos[c] } pos[c] == ite(rangevisited[c] && posSnap[c] >= i, posSnap[c] + 1, posSnap[c]))
+//vc:  ensures[C01] @linesAtOrBehindInsertMoveDown forall c *cmd :: { pos[c] } (c in pos) ==> pos[c] == ite(posSnap[c] >= posSnap[b], posSnap[c] + 1, posSnap[c])
+// delACL
+//vc:func (*State).diffASAACLs$3
+//vc:  hypothesis[C01] a in pos
+//vc:  assume after "s.delCmds([]*cmd{a})" a in pos
+//vc:  assign after "s.delCmds([]*cmd{a})" posSnap = mapvals(pos)
+//vc:  invariant[C01] 1 "for cmd, p := range pos" @shiftedOnceIfVisited i == posSnap[a] && (forall c *cmd :: { pos[c] } pos[c] == ite(rangevisited[c] && posSnap[c] > i, posSnap[c] - 1, posSnap[c]))
+//vc:  ensures[C01] @linesBehindDeleteMoveUp forall c *cmd :: { pos[c] } (c in pos) ==> pos[c] == ite(posSnap[c] > posSnap[a], posSnap[c] - 1, posSnap[c])
+// addCmds/delCmds are recursive through diffCmds; callers use their inferred write sets instead of inlining them
+//vc:func (*State).addCmds
+//vc:  ensures[C01] true
+//vc:func (*State).delCmds
+//vc:  ensures[C01] true
+// equalizeACLs: a pair of lines counts as changed as soon as one of its object-group pairs could not be equalized
+//vc:ghost var anyUnequal bool
+//vc:func (*State).diffASAACLs$5
+//vc:  assign at "if !s.equalizedGroups(aName, bName) {" anyUnequal = ite(rangeindex == -1, false, anyUnequal)
+//vc:  assign after "if !s.equalizedGroups(aName, bName) {" anyUnequal = anyUnequal || !callresult
+//vc:  invariant[C01] 2 "for i, aName := range a.ref" @changedRefAccumulates -1 <= rangeindex && (rangeindex == -1 ==> !changedRef) && (rangeindex >= 0 ==> changedRef == anyUnequal)
